@@ -260,7 +260,7 @@ fn to3(fr: &Frame, p: &[P2]) -> Vec<Point3D> { p.iter().map(|q| fr.at(q.0, q.1))
 
 /// one family: a base outline and its cyclic shifts, reversal, collinear enrichments and rigidly moved copies
 fn c10_family(r: &mut Rng, nmax: usize, scale: f64) -> Option<(Vec<Variant>, String)> {
-    let fr = Frame::random(r, 1000.0);
+    let fr = frame_for(r, 1000.0);   // (f64 build: Frame::random; f32 build: mostly coordinate planes, see gen.rs)
     let (poly, fam) = simple_polygon(r, nmax);
     // `scale` > 1: outlines hundreds to thousands of units across (cross products of 1e5..1e7: absolute tolerances of the
     // vector predicates are below the rounding noise there; seeded change C10-m4)
@@ -309,7 +309,8 @@ fn c10_family(r: &mut Rng, nmax: usize, scale: f64) -> Option<(Vec<Variant>, Str
 }
 pub fn run_c10(seed: u64, n: usize, out: &str) {
     let mut r = Rng::new(seed ^ 0xC10);
-    let mut sink = Sink::new(out, "C10", 12);
+    // f32 build: runner module C10f32 of Run/C10.v (the same text on the binary32 instance)
+    let mut sink = Sink::new32(out, "C10", 12);
     // the last eighth of the stream: huge outlines, drawn from a second generator state (the first 7/8 are the old sequence)
     let mut r2 = Rng::new(seed ^ 0xC10_B16);
     let nold = n - n / 8;
@@ -321,7 +322,7 @@ pub fn run_c10(seed: u64, n: usize, out: &str) {
         let outs: Vec<(String, String)> = vs.iter().map(variant_out).collect();
         sink.push(
             format!("[{}]", outs.iter().map(|o| o.0.clone()).collect::<Vec<_>>().join("; ")),
-            format!("{{\"note\":\"{}\",\"variants\":[{}]}}", note, outs.iter().map(|o| o.1.clone()).collect::<Vec<_>>().join(",")),
+            format!("{{{}\"note\":\"{}\",\"variants\":[{}]}}", f32_mark(), note, outs.iter().map(|o| o.1.clone()).collect::<Vec<_>>().join(",")),
         );
     }
     sink.flush();
@@ -337,7 +338,7 @@ pub fn replay_c10(args: &[String]) {
         let mat = if kind == "rigid" { let mut m = [0.0 as Float; 16]; for j in 0..16 { m[j] = Float::from_bits(args[i + j].parse().unwrap()); } i += 16; Some(m) } else { None };
         outs.push(variant_out(&Variant { kind, k, pts, mat }).1);
     }
-    println!("{{\"note\":\"replay\",\"variants\":[{}]}}", outs.join(","));
+    println!("{{{}\"note\":\"replay\",\"variants\":[{}]}}", f32_mark(), outs.join(","));
 }
 
 // ---------------------------------------------------------------------------------------------
@@ -450,7 +451,7 @@ fn to2(fr: &Frame, l: &Loop3D) -> Vec<P2> {
 enum Subject { Loop(Loop3D), Poly(Polygon3D) }
 fn c05_case(r: &mut Rng) -> Option<(Subject, Frame, String)> {
     let off = if r.chance(0.5) { 10.0 } else { 1000.0 };
-    let fr = Frame::random(r, off);
+    let fr = frame_for(r, off);   // (f64 build: Frame::random; f32 build: mostly coordinate planes, see gen.rs)
     let big = r.chance(0.2);
     let (poly, fam) = simple_polygon(r, if big { 40 } else { 12 });
     if !corners_ok(&poly, 1e-4) { return None; }
@@ -515,13 +516,14 @@ fn c05_emit(sub: &Subject, qs: &[Query], note: &str) -> (String, String) {
         jq.push(format!("{{\"p\":{},\"r\":{},\"parts\":[{}],\"lab\":\"{}\"}}", jfs(&[p.x, p.y, p.z]), res, parts.join(","), q.lab));
     }
     let coq = format!("({}, {}, ([{}] : list lstate), [{}])", coq_bool(is_poly), loop_state_coq(outer), holes.iter().map(|h| loop_state_coq(h)).collect::<Vec<_>>().join("; "), cq.join("; "));
-    let js = format!("{{\"note\":\"{}\",\"poly\":{},\"outer\":{},\"holes\":[{}],\"queries\":[{}]}}", note, is_poly, loop_state_json(outer),
+    let js = format!("{{{}\"note\":\"{}\",\"poly\":{},\"outer\":{},\"holes\":[{}],\"queries\":[{}]}}", f32_mark(), note, is_poly, loop_state_json(outer),
         holes.iter().map(|h| loop_state_json(h)).collect::<Vec<_>>().join(","), jq.join(","));
     (coq, js)
 }
 pub fn run_c05(seed: u64, n: usize, out: &str) {
     let mut r = Rng::new(seed ^ 0xC05);
-    let mut sink = Sink::new(out, "C05", 10);
+    // f32 build: runner module C05f32 of Run/C05.v (the same text on the binary32 instance)
+    let mut sink = Sink::new32(out, "C05", 10);
     // the witness of DESIGN F7 (i) first (fixed by 6f318c4; regression witness): unit square, q = (0.5, 1e-4, 0)
     {
         let fr = Frame::xy();
